@@ -291,8 +291,6 @@ func runCase(id int, c cpuCase, plan cpuPlan, skip int, progress func(cfg int, n
 			}
 			var first runResult
 			for rep := 0; rep < plan.repeats; rep++ {
-				// a fresh parse per run, except for the last repeat which re-uses the first parsed
-				// program (C08: reuse of a parsed program by a second machine)
 				// repeat 0 runs on `app` (parsed once per case and handed to every configuration in turn:
 				// reuse of a parsed program by later machines); middle repeats parse afresh; the last
 				// repeat re-uses `app` again after this configuration has already run it (C08)
@@ -309,6 +307,33 @@ func runCase(id int, c cpuCase, plan cpuPlan, skip int, progress func(cfg int, n
 					out = append(out, fmt.Sprintf("V %d %s %d %s", id, v.name, n, res))
 				} else if res.String() != first.String() {
 					out = append(out, fmt.Sprintf("N %d %s %d repeat=%d %s", id, v.name, n, rep, res))
+				}
+			}
+			if plan.repeats > 1 {
+				// isolation across DATA: the program object that has just been run on data D must behave on
+				// other data D' exactly like a freshly parsed one (state left inside the parsed program —
+				// forward slots — must not leak from one machine into the next)
+				c2 := c
+				c2.regs = map[int]int32{}
+				r2 := hx.NewRand(int64(id)*31 + int64(n)*7 + 5)
+				keys := make([]int, 0, len(c.regs))
+				for k := range c.regs {
+					keys = append(keys, k)
+				}
+				sort.Ints(keys)
+				for _, k := range keys {
+					c2.regs[k] = hx.Pick32(r2)
+				}
+				for _, d := range allData {
+					if _, ok := c2.regs[d]; !ok && r2.Intn(2) == 0 {
+						c2.regs[d] = hx.Pick32(r2)
+					}
+				}
+				fresh, _ := risc.Parse(c.text)
+				rf := runOne(v, n, fresh, c2, budget)
+				rr := runOne(v, n, app, c2, budget)
+				if rf.status == "ok" && rf.String() != rr.String() {
+					out = append(out, fmt.Sprintf("N %d %s %d repeat=reuse-on-other-data %s", id, v.name, n, rr))
 				}
 			}
 		}
@@ -549,7 +574,7 @@ func cpuStream(name string, plan cpuPlan) streamFn {
 	}
 }
 
-var allFamilies = []string{"alu", "dep", "dep-mem", "mem", "br", "br-mem", "shadow", "shadow-reg", "tail", "pair", "err", "evict", "jumps"}
+var allFamilies = []string{"alu", "dep", "dep-mem", "mem", "br", "br-mem", "shadow", "shadow-reg", "tail", "pair", "err", "evict", "jumps", "calls", "loops"}
 
 func init() {
 	streams["cpuworker"] = func(dir string, seed int64, tier string) {}
@@ -558,14 +583,14 @@ func init() {
 	cached := append([]string{"mvp3"}, pipelined...)
 	all4 := []int{1, 2, 3, 4}
 	streams["cpu-c01"] = cpuStream("cpu-c01", cpuPlan{families: allFamilies, n: 770, pars: all4, repeats: 1})
-	streams["cpu-c03"] = cpuStream("cpu-c03", cpuPlan{families: []string{"shadow", "shadow-reg", "br", "shadow-reg", "br-mem", "shadow", "jumps"}, n: 720, variants: pipelined, pars: all4, repeats: 1})
-	streams["cpu-c04"] = cpuStream("cpu-c04", cpuPlan{families: []string{"dep", "dep-mem", "alu", "dep", "jumps"}, n: 720, variants: pipelined, pars: all4, repeats: 1})
+	streams["cpu-c03"] = cpuStream("cpu-c03", cpuPlan{families: []string{"shadow", "shadow-reg", "br", "shadow-reg", "br-mem", "shadow", "jumps", "calls"}, n: 720, variants: pipelined, pars: all4, repeats: 1})
+	streams["cpu-c04"] = cpuStream("cpu-c04", cpuPlan{families: []string{"dep", "dep-mem", "alu", "dep", "jumps", "loops", "calls"}, n: 720, variants: pipelined, pars: all4, repeats: 1})
 	streams["cpu-c05"] = cpuStream("cpu-c05", cpuPlan{families: []string{"mem", "evict", "dep-mem", "pair", "tail", "evict"}, n: 600, variants: cached, pars: all4, repeats: 1})
 	streams["cpu-c07"] = cpuStream("cpu-c07", cpuPlan{families: append([]string{"err", "br", "err", "jumps"}, allFamilies...), n: 700, pars: all4, repeats: 1})
 	streams["cpu-c09"] = cpuStream("cpu-c09", cpuPlan{families: []string{"tail", "br-mem", "tail", "dep-mem"}, n: 720, variants: pipelined, pars: all4, repeats: 1})
 	streams["cpu-c10"] = cpuStream("cpu-c10", cpuPlan{families: []string{"pair", "mem", "pair"}, n: 600, variants: pipelined, pars: all4, repeats: 1})
 	streams["cpu-c12"] = cpuStream("cpu-c12", cpuPlan{families: []string{"alu", "dep", "dep-mem", "mem", "br", "tail", "pair", "br-mem", "jumps"}, n: 800, pars: all4, repeats: 1, pairs: true})
-	streams["cpu-c08"] = cpuStream("cpu-c08", cpuPlan{families: []string{"dep", "dep-mem", "mem", "br", "pair", "alu", "shadow-reg"}, n: 350, pars: []int{1, 2, 3}, repeats: 3})
+	streams["cpu-c08"] = cpuStream("cpu-c08", cpuPlan{families: []string{"dep", "loops", "calls", "dep-mem", "mem", "br", "loops", "pair", "alu", "shadow-reg", "calls"}, n: 350, pars: []int{1, 2, 3}, repeats: 3})
 	streams["cpu-inorder"] = cpuStream("cpu-inorder", cpuPlan{families: allFamilies, n: 1500,
 		variants: []string{"mvp1", "mvp2", "mvp3", "mvp4", "mvp5"}, pars: []int{1}, repeats: 1})
 	streams["cpu-seq"] = cpuStream("cpu-seq", cpuPlan{families: []string{"alu", "dep", "dep-mem", "mem", "br", "br-mem", "tail", "pair", "err"}, n: 2000,
